@@ -16,11 +16,25 @@ META = {
                   "in the model; the harness shows the code treats them so: the callables' results range over 22 "
                   "Starlark value classes (None, False, 0, '', (), fresh []/{}, frozen list, set, NaN, function, ...), "
                   "the keys over 7 styles (empty, NUL, case, 4 KiB prefix, label-like, UTF-8 forms, number-like), the "
-                  "callable over Go builtin / def / lambda / def without return, failing by error, fail() or nil.",
+                  "callable over Go builtin / def / lambda / def without return, failing by error, fail() or nil.  "
+                  "Callers in context: the callers of a cache may be inside the callable that another cache's once is "
+                  "running (Cache/NestedModel.v: n caches, per thread a stack of activations of once, nested calls on "
+                  "higher-numbered caches).  Theorem nested_projection: the projection of every reachable state of that "
+                  "system onto any cache is a reachable state of the single-cache model, so the theorems hold per cache "
+                  "(nested_once_at_most_once_success, nested_once_same_value(_pair), nested_once_failure_stores_nothing).  "
+                  "The nested family of the harness runs 2-3 real caches sharing their key strings, with callables that "
+                  "call once on another cache using the thread they were given (depth <= 2, own value or pass-through "
+                  "of the nested result/error) next to direct callers, forces the 'second caller arrives while the "
+                  "callable runs' interleaving with gated callables, and checks and replays every cache's history "
+                  "separately.",
     "level_note": "Trusted: Coq kernel; sync.RWMutex is modelled as (readers, writer) with RLock enabled iff no writer "
                   "and Lock iff no writer and no readers (a superset of Go's behaviours); the Go scheduler only "
                   "produces some interleavings, the theorems cover all of them for the model; re-entrant callables "
-                  "(once inside once on the same cache) self-deadlock in the code and are outside the property.",
+                  "(once inside once on the same cache) self-deadlock in the code and are outside the property; nested "
+                  "calls of the harness and of nested_projection go to higher-ranked caches only (a cyclic order between "
+                  "two caches can deadlock in the code as any lock-order inversion does); the multi-cache model is tied "
+                  "to the code through its per-cache projections (each replayed by the single-cache model), not by a "
+                  "replay of the global history.",
     "design_ref": "DESIGN.md §6 C20",
 }
 
